@@ -43,6 +43,16 @@ the reader / writer drivers).
  T3-timegm-fields-in-range  at the call of timegm every tm field is proven inside its calendar range (mon 0..11, mday 1..31 -- with T2 the
                            per-month bound --, hour 0..23, min 0..59, sec 0..60, year >= 0): direction and presence of each bound test;
                            timegm would silently normalise anything else into a different date.
+ T4-timegm-fields-complete  ... and the guards accept the *whole* range: the hull of each field over all states that reach timegm
+                           covers mon 0..11, mday 1..31, hour 0..23, min 0..59, sec 0..60 (leap second), year up to 9999; a smaller
+                           hull proves a valid value is rejected.  (Per-month exactness of mday is T2 + T3; holes inside a range are
+                           not visible to an interval.)
+ O1-output-iterator-threaded  a function that takes an output iterator by value and returns one threads the position through every
+                           advancing call (copy_n / copy / fill_n / sibling formatter taking it by value and returning it): a copy made
+                           stale by such a call is never used again (returned, written through, passed on) -- CFG may-dataflow, every
+                           instantiation incl. char*.
+ W1-no-nonreentrant-libc   no function body in the fact base calls gmtime, localtime, asctime, ctime or strtok (hidden static state;
+                           the formatters run concurrently in the thread pool).  Quick tier: the scope headers' unit; thorough: all drivers.
  L1-coordinate-fully-consumed  (clause 2) functions that take the whole string (`const char*` parameter) and call
                            string_to_location_coordinate: assuming the character left at the returned position is not NUL,
                            no normal return is reachable (set_lon / set_lat; the *_partial variants take `const char**`).
@@ -873,6 +883,7 @@ def rule_budget_constant(R, fns, cache):
             continue
         shell = cache.shell(fn)
         preds = fn.preds()
+        sites = []
         for idx, L in enumerate(sorted(fn.loops, key=lambda L: L['b'])):
             advances = False
             for m in fn.all_nodes():
@@ -892,17 +903,22 @@ def rule_budget_constant(R, fns, cache):
             inside = _inside_fn(fn, L)
             heads = {b for b in fn.blocks if inside(b) and fn.blocks[b]['elems'] and any(p <= b for p in preds.get(b, []))
                      and _innermost_loop(fn, fn.blocks[b]['elems'][0]) is L}
-            entries = []
+            if heads:
+                sites.append((idx, L, cs, heads, []))
+        if not sites:
+            continue
 
-            def probe(b, succ, st):
+        def probe(b, succ, st):
+            for (_i, _L, _cs, heads, entries) in sites:
                 if succ in heads and b > succ:
                     entries.append(dict(st))
-            it = U.Interp(fn, edge_probe=probe)
-            it.run()
-            if it.res.truncated:
-                R.broken('B1: interpretation of %s truncated' % fn.q)
-                continue
-            if not heads or not entries:
+        it = U.Interp(fn, edge_probe=probe)      # one interpretation serves every loop of the function
+        it.run()
+        if it.res.truncated:
+            R.broken('B1: interpretation of %s truncated' % fn.q)
+            continue
+        for (idx, L, cs, heads, entries) in sites:
+            if not entries:
                 continue
             key = '%s#consuming-loop%d:budget' % (fn.q, idx + 1)
             bad = None
@@ -977,9 +993,163 @@ def rule_calendar(R, fns, cache):
                           'instead of being rejected)' % (base, f, call['q'], fn.q, r[0], r[1]))
                     continue
                 h = (min(v[0] for v in vs), max(v[1] for v in vs))
+                # T4: the guards accept the whole spec range (the abstract hull covers every accepted value, so a hull that is
+                # smaller than the range proves that a valid value -- a leap second, December, 23 h -- is rejected)
+                want = r if f != 'tm_year' else (max(h[0], 0) if h[0] <= 70 else 70, r[1])
+                stored = None
+                for m in fn.all_nodes():       # what the field can hold before the guards: only a field fed from input is judged
+                    if m.get('k') == 'assign' and m.get('op') == '=' and fn.expr(fn.strip(m['lhs'], casts=False)) == '%s.%s' % (base, f):
+                        o = it.res.obs.get(m['id'])
+                        if o is not None:
+                            stored = o if stored is None else U.hull(stored, o)
+                if stored is None or not U.inside(want, stored):
+                    R.check(U.inside(h, r), 'T3-timegm-fields-in-range', key, fn.loc(call['id']),
+                            '%s.%s can be %s when %s is called in %s, outside %d..%d' % (base, f, _fmt_iv(h), call['q'], fn.q, r[0], r[1]),
+                            'field in %s' % _fmt_iv(h))
+                    continue
+                R.check(h[0] <= want[0] and h[1] >= want[1], 'T4-timegm-fields-complete', '%s:complete' % key, fn.loc(call['id']),
+                        '%s.%s is at most %s when %s is called in %s: the guards reject valid values of the range %d..%d (e.g. the leap '
+                        'second 60, which to_iso() of such an instant / other writers produce)' % (base, f, _fmt_iv(h), call['q'], fn.q, r[0], r[1]),
+                        'accepted hull %s covers %d..%d' % (_fmt_iv(h), want[0], want[1]))
                 R.check(U.inside(h, r), 'T3-timegm-fields-in-range', key, fn.loc(call['id']),
                         '%s.%s can be %s when %s is called in %s, outside %d..%d: such a field is silently normalised into a different '
                         'date instead of being rejected' % (base, f, _fmt_iv(h), call['q'], fn.q, r[0], r[1]), 'field in %s' % _fmt_iv(h))
+
+
+# ------------------------------------------------------------------------------------------------ O1 (output iterator threading)
+
+def _norm_t(t):
+    return (t or '').replace('const ', '').strip()
+
+
+def _by_value_var(fn, nid):
+    """decl id of the variable an argument copies (`it`, std::move(it), copy-constructed temporary of it), else None"""
+    hops = 0
+    while nid is not None and nid in fn.nodes and hops < 12:
+        hops += 1
+        n = fn.nodes[nid]
+        k = n.get('k')
+        if k in ('wrap', 'icast') and 'sub' in n:
+            nid = n['sub']
+        elif k == 'construct' and len(n.get('args', [])) == 1 and (n.get('elidable') or n.get('copymove')):
+            nid = n['args'][0]
+        elif k == 'call' and n.get('q') in ('std::move', 'std::forward') and n.get('args'):
+            nid = n['args'][0]
+        elif k == 'var' and n.get('vk') in ('local', 'param'):
+            return n['d']
+        else:
+            return None
+    return None
+
+
+def rule_output_iterator(R, fns):
+    """A function that takes an output iterator by value and returns one of the same type threads the position through every
+    write: a call that receives the iterator by value and returns the advanced iterator (std::copy_n, std::copy, std::fill_n, a
+    sibling formatter) makes the caller's copy stale until it is assigned the result; a stale copy must not be used again
+    (returned, written through, passed on).  With std::back_insert_iterator a stale copy happens to work, with char* the next
+    write overwrites the text -- decided on the CFG for every instantiation, pointer or not."""
+    from ..flow import forward_may
+    for fn in fns:
+        if fn.is_lambda or not fn.has_cfg:
+            continue
+        T = _norm_t(fn.retC)
+        if not T or U.type_range(T) is not None or T in ('void', 'double', 'float', 'long double') or T.endswith('&'):
+            continue
+        if T.endswith('*') and T.startswith('const') or 'const char *' in fn.retC or 'const unsigned char *' in fn.retC:
+            continue               # nothing can be written through it
+        ps = [p for p in fn.params if _norm_t(p['tC']) == T and not p['tC'].rstrip().endswith('&')]
+        if not ps:
+            continue
+        tracked = {p['d'] for p in ps}
+        for n in fn.all_nodes():
+            if n.get('k') == 'decl':
+                for v in n['vars']:
+                    if _norm_t(v['tC']) == T:
+                        tracked.add(v['d'])
+        # writer calls: receive a tracked variable by value, return the same iterator type
+        writer = {}
+        for n in fn.all_nodes():
+            if n.get('k') == 'call' and _norm_t(n.get('t')) == T and n.get('op') is None:
+                for a in n.get('args', []) or []:
+                    d = _by_value_var(fn, a) if a is not None else None
+                    if d in tracked:
+                        writer.setdefault(n['id'], set()).add(d)
+        stores = [n for n in fn.all_nodes() if n.get('k') == 'assign' and (fn.root_var(n['lhs']) or (None, None))[1] in tracked
+                  and fn.nodes.get(fn.strip(n['lhs'], casts=False), {}).get('k') != 'var']
+        if not writer and not stores:
+            continue               # does not write through the iterator at all (e.g. a pointer getter)
+        lhs_use = set()            # variable references that are overwritten, not read
+        assigns = {}
+        for n in fn.all_nodes():
+            tgt = None
+            if n.get('k') == 'assign' and n.get('op') == '=':
+                tgt = n['lhs']
+            elif n.get('k') == 'call' and n.get('op') == '=' and n.get('recv') is not None:
+                tgt = n['recv']
+            if tgt is not None:
+                x = fn.strip(tgt, casts=False)
+                m = fn.nodes.get(x)
+                if m is not None and m.get('k') == 'var' and m.get('d') in tracked:
+                    lhs_use.add(x)
+                    assigns[n['id']] = m['d']
+            if n.get('k') == 'decl':
+                for v in n['vars']:
+                    if v['d'] in tracked:
+                        assigns.setdefault(n['id'], v['d'])
+
+        def transfer(st, n):
+            nid = n['id']
+            if nid in writer:
+                st = st | frozenset(writer[nid])
+            if nid in assigns:
+                st = st - {assigns[nid]}
+            return st
+        before = forward_may(fn, transfer)
+        bad = None
+        for n in fn.all_nodes():
+            if n.get('k') == 'var' and n.get('d') in tracked and n['id'] not in lhs_use:
+                st = before.get(n['id'])
+                if st and n['d'] in st:
+                    bad = n
+                    break
+        key = '%s#iterator-threaded' % fn.q
+        if bad is not None:
+            R.bad('O1-output-iterator-threaded', key, fn.loc(bad['id']),
+                  '%s uses its output iterator `%s` after a call that received it by value and returned the advanced position (result '
+                  'dropped): with a pointer iterator the returned / next write position is stale and the text is overwritten'
+                  % (fn.q, bad.get('name')))
+        else:
+            R.ok('O1-output-iterator-threaded', key, fn.site, '%d advancing calls, every later use goes through their result' % len(writer))
+
+
+# ------------------------------------------------------------------------------------------------ W1 (who may call)
+
+NON_REENTRANT = {
+    'gmtime': 'returns a pointer to one static struct tm; use gmtime_r / gmtime_s',
+    'localtime': 'returns a pointer to one static struct tm; use localtime_r',
+    'asctime': 'formats into one static buffer',
+    'ctime': 'formats into one static buffer',
+    'strtok': 'keeps its position in hidden static state',
+}
+
+
+def rule_non_reentrant(R, fb):
+    """The output formatters run concurrently in the thread pool: nothing under include/osmium may call a libc function that works
+    on hidden static storage (frozen list)."""
+    hits = {}
+    for fn in fb.functions:
+        if not fn.has_cfg:
+            continue
+        for n in fn.all_nodes():
+            if n.get('k') == 'call' and n.get('q', '').rsplit('::', 1)[-1] in NON_REENTRANT and is_extern_c(n):
+                hits.setdefault(n['q'].rsplit('::', 1)[-1], []).append((fn, n))
+    for name, why in NON_REENTRANT.items():
+        hs = hits.get(name, [])
+        if not hs:
+            R.ok('W1-no-nonreentrant-libc', '%s#not-called' % name, 'include/osmium', 'no caller in %d function bodies' % len(fb.functions))
+        for (fn, n) in hs:
+            R.bad('W1-no-nonreentrant-libc', '%s#not-called' % name, fn.loc(n['id']),
+                  '%s calls %s (%s): concurrent formatting / parsing in the thread pool reads another call\'s result' % (fn.q, name, why))
 
 
 # ------------------------------------------------------------------------------------------------ L1
@@ -1013,7 +1183,7 @@ def rule_consumed(R, fns):
 
 # ------------------------------------------------------------------------------------------------ driver
 
-def all_rules(fb, R, fns=None):
+def all_rules(fb, R, fns=None, all_functions=True):
     fns = scope_fns(fb) if fns is None else fns
     cache = Cache()
     parsers = parser_functions(fns)
@@ -1028,6 +1198,8 @@ def all_rules(fb, R, fns=None):
     rule_index(R, fns, cache)
     rule_strto(R, fns)
     rule_consumed(R, fns)
+    rule_output_iterator(R, [f for f in fb.functions if f.has_cfg] if all_functions else fns)
+    rule_non_reentrant(R, fb)
 
 
 ANCHORS = (COORD_PARSER, 'osmium::io::detail::opl_parse_int', 'osmium::io::detail::opl_parse_escaped',
@@ -1051,6 +1223,15 @@ def run(ctx):
             if not any(f.q == need for f in fns):
                 R.broken('anchor %s not found in the fact base (%s %s)' % (need, '+'.join(drivers), cfg))
         all_rules(fb, R, fns)
+    if ctx.tier != 'quick':
+        # who-may-call and iterator threading over everything the drivers instantiate (the quick tier covers the scope headers)
+        import os
+        ddir = os.path.join(os.path.dirname(os.path.dirname(os.path.dirname(os.path.abspath(__file__)))), 'drivers')
+        rest = sorted(f[:-4] for f in os.listdir(ddir) if f.endswith('.cpp') and f[:-4] not in ('c13_extra', 'io_read', 'io_write'))
+        if rest:
+            fb = ctx.facts(rest, 'ndebug14')
+            rule_output_iterator(R, [f for f in fb.functions if f.has_cfg])
+            rule_non_reentrant(R, fb)
     R.expect('A1-accum-bounded', 10)          # coordinate parser 4 (int digits, fraction, exponent digits, scale-up), opl_parse_int 2, opl_parse_escaped 4
     R.expect('S1-strto-range-rejected', 3)    # string_to_object_id, string_to_ulong, str_to_int
     R.expect('S2-strto-trailing-rejected', 3)
@@ -1062,6 +1243,9 @@ def run(ctx):
     R.expect('B1-digit-budget-constant', 5)          # coordinate parser: int digits, fraction, ignored digits, exponent digits; opl_parse_escaped
     R.expect('T2-month-length-table', 1)
     R.expect('T3-timegm-fields-in-range', 6)         # mon, mday, hour, min, sec, year at the timegm call of parse_timestamp
+    R.expect('T4-timegm-fields-complete', 6)
+    R.expect('O1-output-iterator-threaded', 3)       # append_location_coordinate_to_string, Location::as_string, as_string_without_check
+    R.expect('W1-no-nonreentrant-libc', 5)           # one per banned function
     R.expect('L1-coordinate-fully-consumed', 2)      # set_lon, set_lat (const char*)
     R.expect('N1-negation-excludes-minimum', 2)      # coordinate formatter, opl_parse_int (output_int works on the unsigned magnitude since bb05cce)
     R.expect('C1-narrowing-in-range', 7)      # coordinate parser, string_to_ulong, str_to_int x3, opl_parse_int<uint32>, Timestamp(const char*)
@@ -1094,11 +1278,11 @@ def _selftest(fb, R):
 def _selftest_once(fb, R):
     from ..engine import AnalysisBroken
     fns = [f for f in fb.functions if f.q.startswith('c13pos::') and f.has_cfg]
-    all_rules(fb, R, fns)
+    all_rules(fb, R, fns, all_functions=False)
     wrong = []
     names = {f.name for f in fns}
     for nm in sorted(names):
-        mine = [i for i in R.instances.values() if ('::%s#' % nm) in i.key]
+        mine = [i for i in R.instances.values() if ('::%s#' % nm) in i.key or (i.rule.startswith('W1') and not i.ok and ('::%s ' % nm) in (i.msg or ''))]
         if nm.startswith('bad_'):
             tag = nm.split('_')[1].upper()
             if not any((not i.ok) and i.rule.startswith(tag) for i in mine):
@@ -1107,12 +1291,13 @@ def _selftest_once(fb, R):
             for i in mine:
                 if not i.ok:
                     wrong.append('%s reported by %s' % (nm, i.rule))
-    if wrong or R.broken_msgs or len(names) < 36:
+    if wrong or R.broken_msgs or len(names) < 42:
         raise AnalysisBroken('IVAL self-test: unexpected verdicts on selftest/positive/c13_text.cpp: %s %s' % (wrong, R.broken_msgs))
 
 
 SELFTESTS = [(r, 'c13_text.cpp', _selftest) for r in (
     'A1-accum-bounded', 'S1-strto-range-rejected', 'S2-strto-trailing-rejected', 'S3-strto-no-digits-rejected',
     'S4-strto-leading-space-rejected', 'S5-strtoul-minus-rejected', 'A2-scale-down-complete', 'A3-scale-up-early-exit-rejected',
-    'B1-digit-budget-constant', 'T2-month-length-table', 'T3-timegm-fields-in-range', 'L1-coordinate-fully-consumed', 'N1-negation-excludes-minimum', 'C1-narrowing-in-range',
+    'B1-digit-budget-constant', 'T2-month-length-table', 'T3-timegm-fields-in-range', 'T4-timegm-fields-complete',
+    'O1-output-iterator-threaded', 'W1-no-nonreentrant-libc', 'L1-coordinate-fully-consumed', 'N1-negation-excludes-minimum', 'C1-narrowing-in-range',
     'D1-digit-validated', 'T1-array-index-in-range')]
